@@ -60,6 +60,16 @@ impl InputEvent {
 //@end
 }
 
+impl InputEvent {
+//@item src/events.rs :: impl InputEvent :: fn cdata_string
+//@ implicit C01
+//@ replace[R-utf8] <<<String::from_utf8(c.to_vec()).ok()>>> => <<<(match string_from_utf8(c.to_vec()) { Ok(s) => Some(s), Err(_) => None })>>>
+//@ ensures
+//@ - self.event is CData && r is Some ==> str_bytes(r->Some_0@) == self.event->CData_0.raw()     @@C19.cdata.verbatim
+//@ - self.event is CData && is_utf8(self.event->CData_0.raw()) ==> r is Some
+//@end
+}
+
 impl OutputEvent {
 //@item src/events.rs :: impl From<InputEvent> for OutputEvent :: fn from
 //@ implicit C01
